@@ -468,8 +468,86 @@ func RunStoreFault(r *monitor.Run) {
 	}
 }
 
+// RunLifecycleCounts is part (e): every session that is created ends exactly once, and says so exactly once - also when
+// the end of the old session and the creation of the new one happen inside one CONNECT (take-over of a connected
+// client whose session does not outlive its connection).
+func RunLifecycleCounts(r *monitor.Run) {
+	b, err := broker.Start(broker.Options{})
+	if err != nil {
+		r.Inconclusive(err.Error())
+		return
+	}
+	defer b.Stop(step)
+	n := 0
+	for _, v := range []mqttx.Version{mqttx.V311, mqttx.V5} {
+		for _, firstExpiry := range []uint32{0, 3600} {
+			for _, secondClean := range []bool{true, false} {
+				n++
+				id := fmt.Sprintf("life-%d", n)
+				mk := func(clean bool, expiry uint32) *mqttx.Packet {
+					p := &mqttx.Packet{ClientID: id, CleanStart: clean}
+					if v == mqttx.V5 {
+						p.Props = &mqttx.Props{SessionExpiry: &expiry}
+					} else if expiry == 0 {
+						p.CleanStart = true
+					}
+					return p
+				}
+				from := b.Log.Len()
+				c1, err := wire.Dial(id, b.Addr, v)
+				if err != nil {
+					r.Inconclusive(err.Error())
+					return
+				}
+				if _, err := c1.Connect(mk(true, firstExpiry), step); err != nil {
+					r.Inconclusive(err.Error())
+					return
+				}
+				c2, err := wire.Dial(id, b.Addr, v)
+				if err != nil {
+					r.Inconclusive(err.Error())
+					return
+				}
+				if _, err := c2.Connect(mk(secondClean, 0), step); err != nil { // take-over
+					r.Inconclusive(err.Error())
+					return
+				}
+				c1.WaitEOF(step)
+				lf := b.Log.Len()
+				c2.Disconnect(0, nil)
+				b.Log.Wait(lf, func(e broker.Event) bool { return e.Kind == "OnSessionTerminated" && e.Client == id }, step)
+				time.Sleep(30 * time.Millisecond)
+				c1.Close()
+				created, resumed, terminated := 0, 0, 0
+				for _, e := range b.Log.Events()[from:] {
+					if e.Client != id {
+						continue
+					}
+					switch e.Kind {
+					case "OnSessionCreated":
+						created++
+					case "OnSessionResumed":
+						resumed++
+					case "OnSessionTerminated":
+						terminated++
+					}
+				}
+				r.Eval(1)
+				// the second connection's session has expiry 0 (v3: clean session unless it resumed): it is over by now
+				if terminated != created {
+					r.Violation(fmt.Sprintf("lifecycle.terminated_vs_created:created=%d:terminated=%d:v=%d:first_expiry_0=%v:second_clean=%v", created, terminated, v, firstExpiry == 0, secondClean),
+						fmt.Sprintf("client id %s: %d sessions were created (and %d resumptions), all of them are over, OnSessionTerminated fired %d times", id, created, resumed, terminated), nil)
+				}
+				r.Count("session_lifecycles_counted", 1)
+				r.Nontrivial("lifecycle|" + id)
+			}
+		}
+	}
+}
+
 // Run is the entry point.
 func Run(r *monitor.Run) {
+	RunLifecycleCounts(r)
 	RunEnforcement(r)
 	RunComposition(r)
 	RunRestored(r)
